@@ -307,7 +307,9 @@ def run(chk):
                     src_names, targets = n.value, [n.target]
                 if src_names is None:
                     continue
-                if any(isinstance(x, ast.Name) and x.id in derived for x in ast.walk(src_names)):
+                sh = {id(x.value) for x in ast.walk(src_names) if isinstance(x, ast.Attribute) and x.attr in ("name", "op", "value", "specifier")
+                      and isinstance(x.value, ast.Name)}   # reading a compared scalar field does not carry the object along
+                if any(isinstance(x, ast.Name) and x.id in derived and id(x) not in sh for x in ast.walk(src_names)):
                     for t in targets:
                         for x in ast.walk(t):
                             if isinstance(x, ast.Name) and x.id not in derived:
@@ -315,7 +317,7 @@ def run(chk):
                                 changed = True
         rets = [n for n in ast.walk(fn) if isinstance(n, ast.Return) and n.value is not None]
         leaking = []
-        COMPARED_SCALARS = ("name", "op", "value")
+        COMPARED_SCALARS = ("name", "op", "value", "specifier")   # `.specifier` is a pure function of the compared fields (R10.7 keeps its cache field honest)
         for r in rets:
             # occurrences of a derived name that are not merely the base of an access to a compared scalar field
             shielded = {id(x.value) for x in ast.walk(r.value) if isinstance(x, ast.Attribute) and x.attr in COMPARED_SCALARS and isinstance(x.value, ast.Name)}
